@@ -69,11 +69,15 @@ impl<'a> Interp<'a> {
             n.kill();
         }
         node::disarm_clock();
+        server::verif::disarm_all();
         let _ = take_panics();
     }
 
     pub fn run_case(&mut self) -> Check {
         let _ = take_panics();
+        for (name, ms) in &self.case.chaos {
+            server::verif::arm_chaos(name, server::verif::ChaosAction::DelayMs(*ms), 1);
+        }
         self.setup()?;
         let ops = self.case.ops.clone();
         for (i, op) in ops.iter().enumerate() {
@@ -190,6 +194,7 @@ impl<'a> Interp<'a> {
             }
         }
         let seg_before: Vec<usize> = (1..=nparts as u32).map(|p| self.observe(p).len()).collect();
+        let size_before: Vec<u64> = (1..=nparts as u32).map(|p| self.observe(p).iter().map(|s| s.size).sum()).collect();
         let n = self.node();
         let r = n.block_on(async { self.cl().send_messages(&sid(), &tid(), &partitioning, &mut sdk_msgs).await });
         if let Err(e) = &r {
@@ -294,7 +299,14 @@ impl<'a> Interp<'a> {
                     }
                 }
             }
-            if landed.is_some() || !self.cfg.no_wait || any_could_be_empty || std::time::Instant::now() > scan_deadline {
+            if landed.is_some() || !self.cfg.no_wait || std::time::Instant::now() > scan_deadline {
+                break;
+            }
+            // no-wait: a persisted batch may not be readable yet. The in-memory size
+            // counters (observation only, 2.6) tell whether any partition took the send
+            // at all; if none did, every message was a duplicate and there is nothing to wait for.
+            let grew = (1..=nparts as u32).any(|p| self.observe(p).iter().map(|s| s.size).sum::<u64>() != size_before[(p - 1) as usize]);
+            if !grew && any_could_be_empty {
                 break;
             }
             self.node().settle(2);
